@@ -21,7 +21,7 @@ func howClass(e string) string { return e }
 
 func main() {
 	c := vk.Init("C17")
-	c.Rule("case i: PRNG(seed,i) draws a template (fields/components/groups, depth<=3, 7 value types, header/body/trailer), a population (each leaf populated with p=0.7 through one of 5 constructor/setter paths; Set(nil) un-population; group entries direct or via AsTemplate) and values; plus every tests/fix44 message type populated through the items it exposes, plus the generated typed API by reflection (values set on group entries before AddEntry, on entries handed back by Entries(), and members replaced as a whole through Set<Component>/Set<Group> must be on the wire); plus updates AFTER a serialization on every fix44 message and every fourth template message: one body field set / un-set through its value, one group entry added, header untouched, serialized again after each step. distinct = hash(template shape, wire bytes); non-trivial = at least one populated non-framing field")
+	c.Rule("case i: PRNG(seed,i) draws a template (fields/components/groups, depth<=3, 7 value types, header/body/trailer; every third template's trailer may hold components and groups too), a population (each leaf populated with p=0.7 through one of 5 constructor/setter paths; Set(nil) un-population; group entries direct or via AsTemplate) and values; plus every tests/fix44 message type populated through the items it exposes, plus the generated typed API by reflection (values set on group entries before AddEntry, on entries handed back by Entries(), and members replaced as a whole through Set<Component>/Set<Group> must be on the wire); plus updates AFTER a serialization on every fix44 message and every fourth template message: one body field set / un-set through its value, one group entry added, header untouched, serialized again after each step. distinct = hash(template shape, wire bytes); non-trivial = at least one populated non-framing field")
 	c.Assume("fixref tokenizer and the harness's expected-field computation are the trusted base")
 	c.Assume("a Message is always given a header and a trailer component (possibly empty); never-SetHeader messages are not generated")
 	n := c.Pick(20000, 500000)
@@ -81,7 +81,9 @@ func main() {
 
 	vk.Parallel(n, runtime.NumCPU(), func(i int) {
 		r := c.Rand("c17", int64(i))
-		t := gen.RandTemplate(r, o)
+		oo := o
+		oo.TrailerNested = i%3 == 0 // trailers that hold components and repeating groups
+		t := gen.RandTemplate(r, oo)
 		mp := gen.RandPop(r, t, o)
 		m, be := mp.Build()
 		wire, err, pan := gen.Serialize(m)
